@@ -3,6 +3,10 @@ import TwistedModel.Cred.Digest
 Driver glue for C48.  Bytes are hex (`-` = empty).  One line = one history:
 
   `C48 run <pk> <realm> <issues> <nowTicks> <host> <method> <header> <pws> <table>`
+  `C48 runh <pk> <realm> <issues> <pre> <nowTicks> <host> <method> <header> <pws> <table>`
+      the same header presented to the same factory several times: `pre` = `;`-joined
+      `ticks:host` of the earlier presentations (at least one); the output gains
+      `pre=<r>;…` before `dec=`, with `<r>` = `ok/<pw verdicts>` or `!<ExceptionClass>`
 
   issues  `;`-joined `ticks:host:nonce` (or `_`): challenges issued, clock in quarter seconds
   host    `N` (None) or hex bytes
@@ -73,29 +77,59 @@ def showPw (H : Hash) (c : Creds) (pw : Bytes) : String :=
       else "x"
     exp ++ ":" ++ (if b then "1" else "0")
 
+def decPre (t : String) : Option (Int × Option Bytes) :=
+  match t.splitOn ":" with
+  | [n, h] => do
+      let n ← n.toInt?
+      let h ← decHost h
+      pure (n, h)
+  | _ => none
+
+def showPws (H : Hash) (c : Creds) (pws : List Bytes) : String :=
+  if pws.isEmpty then "_" else ",".intercalate (pws.map (showPw H c))
+
+/-- an earlier response of the history: outcome and password verdicts only -/
+def showEarlier (H : Hash) (pws : List Bytes) : Except Err Creds → String
+  | .error e => "!" ++ errName e
+  | .ok c => "ok/" ++ showPws H c pws
+
+/-- the last response of the history: everything -/
+def showLast (H : Hash) (pws : List Bytes) : Except Err Creds → String
+  | .error e => "dec=!" ++ errName e
+  | .ok c => "dec=ok user=" ++ hex c.username ++ " fields=" ++ showFields c.fields ++ " pw=" ++ showPws H c pws
+
+/-- `pre` = `none` for `run`; `some t` for `runh` (the earlier `(clock, address)` pairs, `;`-joined) -/
+def runLine (pre : Option String) (pk realm issues now host method header pws table : String) : String :=
+  let r : Option String := do
+    let pk ← unhex pk
+    let realm ← unhex realm
+    let issues ← decList ";" decIssue issues
+    let pre ← match pre with
+      | none => some []
+      | some t => decList ";" decPre t
+    let now ← now.toInt?
+    let host ← decHost host
+    let method ← unhex method
+    let header ← unhex header
+    let pws ← decList "," unhex pws
+    let tbl ← decList ";" decEntry table
+    let H := tableHash tbl
+    let chs := issues.map fun (t, h, n) => hex (generateOpaque H pk n h (timeInt t))
+    let ch := if chs.isEmpty then "_" else ";".intercalate chs
+    let reqs : List Request := (pre ++ [(now, host)]).map fun (t, h) => ⟨timeInt t, header, method, h⟩
+    let outs := decodeAll H pk realm reqs
+    let last ← outs.getLast?
+    let earlier := outs.dropLast.map (showEarlier H pws)
+    let preOut := if pre.isEmpty then "" else "pre=" ++ ";".intercalate earlier ++ " "
+    pure ("ch=" ++ ch ++ " " ++ preOut ++ showLast H pws last)
+  r.getD "bad-op"
+
 def handle (args : List String) : String :=
   match args with
   | ["run", pk, realm, issues, now, host, method, header, pws, table] =>
-    let r : Option String := do
-      let pk ← unhex pk
-      let realm ← unhex realm
-      let issues ← decList ";" decIssue issues
-      let now ← now.toInt?
-      let host ← decHost host
-      let method ← unhex method
-      let header ← unhex header
-      let pws ← decList "," unhex pws
-      let tbl ← decList ";" decEntry table
-      let H := tableHash tbl
-      let chs := issues.map fun (t, h, n) => hex (generateOpaque H pk n h (timeInt t))
-      let ch := if chs.isEmpty then "_" else ";".intercalate chs
-      let dec := match decode H pk realm (timeInt now) header method host with
-        | .error e => "dec=!" ++ errName e
-        | .ok c =>
-          "dec=ok user=" ++ hex c.username ++ " fields=" ++ showFields c.fields ++ " pw=" ++
-            (if pws.isEmpty then "_" else ",".intercalate (pws.map (showPw H c)))
-      pure ("ch=" ++ ch ++ " " ++ dec)
-    r.getD "bad-op"
+    runLine none pk realm issues now host method header pws table
+  | ["runh", pk, realm, issues, pre, now, host, method, header, pws, table] =>
+    if pre = "_" then "bad-op" else runLine (some pre) pk realm issues now host method header pws table
   | _ => "bad-op"
 
 end Twisted.Drv.C48
